@@ -91,6 +91,7 @@ def patches_for(prop=None):
 
 
 def run(prop=None, verbose=True):
+    os.environ.setdefault("VERIF_TARGET_TAG", "-selftest")   # own target dir: does not disturb concurrent checks
     paths = patches_for(prop)
     allprops = set()
     for p in paths:
